@@ -1330,13 +1330,15 @@ func c03RoundF(c *Ctx, w *World) {
 						}
 					}
 					return true
+				case *ssa.Extract:
+					return fresh(x.Tuple)
 				case *ssa.Call:
-					if g := x.Call.StaticCallee(); g != nil && g.Blocks != nil && g.Pkg == gv.Pkg {
-						// a constructor: all its returns are new maps
+					if g := x.Call.StaticCallee(); g != nil && g.Blocks != nil && g.Pkg == gv.Pkg && len(seen) < 40 {
+						// a constructor or copying helper: all its returns are new maps
 						okAll := true
 						for _, gb := range g.Blocks {
-							if gr, isR := gb.Instrs[len(gb.Instrs)-1].(*ssa.Return); isR && len(gr.Results) > 0 {
-								if _, isMk := stripConvNoBind(gr.Results[0]).(*ssa.MakeMap); !isMk {
+							if gr, isR := gb.Instrs[len(gb.Instrs)-1].(*ssa.Return); isR && len(gr.Results) > 0 && gb != g.Recover {
+								if !fresh(gr.Results[0]) {
 									okAll = false
 								}
 							}
